@@ -13,6 +13,10 @@ type MissingType struct{}
 // Missing represents the absence of a value in a document.
 var Missing = MissingType{}
 
+// MaxArrayPadding is the maximum number of null elements Put will add to an
+// array to reach the specified index.
+const MaxArrayPadding = 1500000
+
 // Get returns the value in the document specified by path. It returns Missing
 // if the value has not been found. Dots may be used to descend into nested
 // documents e.g. "foo.bar.baz" and numbers may be used to descend into arrays
@@ -227,6 +231,11 @@ func put(v interface{}, path string, value interface{}, prepend bool, set func(i
 
 		// check if unset
 		if value == Missing {
+			return Missing, false
+		}
+
+		// limit padding
+		if index-len(arr) > MaxArrayPadding {
 			return Missing, false
 		}
 
